@@ -597,7 +597,7 @@ func execBuild06(t *layer06) buildObs06 {
 	}()
 	select {
 	case <-done:
-	case <-time.After(20 * time.Second):
+	case <-time.After(90 * time.Second):
 		return buildObs06{cls: ClsDiverge, msg: "timeout"}
 	}
 	if o.cls != ClsOk {
